@@ -17,7 +17,7 @@ def configs(tier):
     cs = []
     def add(sp, script, param='', **kw):
         name = short(sp) + '-' + script + ('-' + param if param else '')
-        if script in ('refine', 'construct', 'construct1', 'mixed'): kw.setdefault('strategy', 'tree'); kw.setdefault('solver_timeout_ms', 2000); kw.setdefault('max_paths', 6); kw.setdefault('time_budget_s', 40 if tier == 'quick' else 240)
+        if script in ('refine', 'construct', 'construct1', 'mixed', 'sym'): kw.setdefault('strategy', 'tree'); kw.setdefault('solver_timeout_ms', 2000); kw.setdefault('max_paths', 6); kw.setdefault('time_budget_s', 40 if tier == 'quick' else 240)
         cs.append(Config(name, 'C01', [sp, script] + ([param] if param else []), **kw))
     if tier == 'quick':
         add(spec('localp', 'localp', 2, 1, 3, order=1), 'load')
@@ -44,6 +44,7 @@ def configs(tier):
         add(spec('sequence', 'rleja', 2, 1, 2), 'construct', '2')
         add(spec('global', 'clenshaw-curtis', 2, 1, 2), 'construct', '4')
         add(spec('fourier', 'fourier', 2, 1, 1), 'construct', '3')
+        add(spec('global', 'clenshaw-curtis', 2, 1, 1), 'sym', '3', max_paths=60); add(spec('sequence', 'rleja', 2, 1, 1), 'sym', '3', max_paths=60); add(spec('localp', 'localp', 2, 1, 1, order=1), 'sym', '3', max_paths=60)   # solver-chosen histories
         add(spec('fourier', 'fourier', 2, 1, 2, 'level', aniso=1), 'reupdate'); add(spec('global', 'clenshaw-curtis', 2, 1, 3, 'level', aniso=1), 'reupdate'); add(spec('sequence', 'rleja', 2, 1, 3, 'iptotal', aniso=1), 'reupdate')
         add(spec('localp', 'localp', 2, 1, 1, order=1), 'mixed', '3'); add(spec('sequence', 'rleja', 2, 1, 1), 'mixed', '2'); add(spec('global', 'clenshaw-curtis', 2, 1, 1), 'mixed', '3')
     else:
@@ -85,6 +86,8 @@ def configs(tier):
         add(spec('fourier', 'fourier', 2, 2, 2, 'iptotal', aniso=1), 'reload', timeout=300)
         add(spec('fourier', 'fourier', 2, 1, 1), 'construct', '3')
         add(spec('fourier', 'fourier', 2, 1, 1), 'refine', 'aniso', max_paths=20)
+        for sp in (spec('global', 'clenshaw-curtis', 2, 1, 1), spec('global', 'leja', 2, 2, 1), spec('sequence', 'rleja', 2, 1, 1), spec('sequence', 'min-delta', 2, 1, 2), spec('fourier', 'fourier', 2, 1, 1), spec('localp', 'localp', 2, 1, 1, order=1), spec('localp', 'semi-localp', 2, 1, 1, order=2), spec('localp', 'localp-boundary', 1, 1, 2, order=1)):
+            add(sp, 'sym', '3', max_paths=343, time_budget_s=400)
         for t in ('level', 'iptotal', 'ipcurved', 'qphyperbolic'):
             add(spec('fourier', 'fourier', 2, 1, 2, t, aniso=1), 'reupdate', timeout=300); add(spec('global', 'clenshaw-curtis', 2, 1, 3, t, aniso=1), 'reupdate'); add(spec('global', 'leja', 2, 2, 3, t, aniso=1), 'reupdate'); add(spec('sequence', 'rleja', 2, 1, 3, t, aniso=1), 'reupdate'); add(spec('sequence', 'min-delta', 3, 1, 2, t, aniso=1), 'reupdate')
         for rule in LOCAL_RULES: add(spec('localp', rule, 2, 1, 1, order=1), 'mixed', '3', max_paths=12); add(spec('localp', rule, 2, 1, 2, order=2), 'mixed', '2', max_paths=8)
